@@ -82,6 +82,11 @@ func pairCase(c map[string]interface{}) map[string]interface{} {
 			return map[string]interface{}{"res": "err", "err": err.Error()}
 		}
 		ops := ipamOps(ipam)
+		if pops, perr := pluginOps(2*iters + 8); perr == nil {
+			for k, v := range pops {
+				ops[k] = v
+			}
+		}
 		a := ops[Str(c, "a")]
 		var bs []func(int)
 		if l, ok := c["b"].([]interface{}); ok {
@@ -91,23 +96,38 @@ func pairCase(c map[string]interface{}) map[string]interface{} {
 				}
 			}
 		}
+		if a != nil && len(bs) == 0 {
+			bs = append(bs, ops["FloatingIPPlugin.Filter"], a)
+		}
 		if a == nil || len(bs) == 0 {
 			return map[string]interface{}{"res": "unsupported"}
 		}
-		var wg sync.WaitGroup
+		var wg, wa sync.WaitGroup
 		wg.Add(3)
+		wa.Add(2)
 		for k := 0; k < 2; k++ {
 			go func() {
 				defer wg.Done()
+				defer wa.Done()
 				for i := 0; i < iters; i++ {
 					a(i)
 				}
 			}()
 		}
+		aDone := make(chan struct{})
+		go func() { wa.Wait(); close(aDone) }()
 		go func() {
 			defer wg.Done()
-			for i := 0; i < iters*4; i++ {
+			// the partner thread keeps going for as long as the two threads of a run (some entry points wait on a poll timer)
+			for i := 0; ; i++ {
 				bs[i%len(bs)](i / len(bs))
+				if i >= iters*4 {
+					select {
+					case <-aDone:
+						return
+					default:
+					}
+				}
 			}
 		}()
 		wg.Wait()
